@@ -159,6 +159,11 @@ def gen_pool(rng, tier, opts):
             mats[2] = mats[2] * (1 + rng.choice([1e-10, 1e-5]))
         pool.append({"kind": "basis", "mats": mats, "sparse": rng.random() < 0.4, "born_atol": DEFAULT_ATOL})
         pool.append({"kind": "esys", "basis": len(pool) - 1, "name": 40 + len(pool), "born_atol": DEFAULT_ATOL})
+    some_states = [i for i, r in enumerate(pool) if r["kind"] == "state" and r["csys"] == 0][:2]
+    some_gates = [i for i, r in enumerate(pool) if r["kind"] == "gate" and r["csys"] == 0][:1]
+    pool.append({"kind": "setq", "states": some_states, "povms": None, "gates": None, "mprocesses": None})
+    pool.append({"kind": "setq", "states": None, "povms": None, "gates": some_gates, "mprocesses": None})
+    pool.append({"kind": "setq", "states": some_states[:1], "povms": [], "gates": None, "mprocesses": None})
     for cls in ["se", "re", "fast_se", "fast_re"]:
         pool.append({"kind": "loss", "cls": cls})
     for cls in ["pgdb", "pgdb", "pgdm", "pfista"]:
@@ -234,6 +239,11 @@ class Run:
                 from quara.objects.multinomial_distribution import MultinomialDistribution
 
                 obj = MultinomialDistribution(np.array(r["ps"], dtype=np.float64), tuple(r["shape"]), eps_zero=r.get("eps_zero"))
+            elif k == "setq":
+                from quara.objects.qoperations import SetQOperations
+
+                kw = {key: [self.build_entry(i, fresh_cache, live) for i in r[key]] for key in ("states", "povms", "gates", "mprocesses") if r.get(key) is not None}
+                obj = SetQOperations(**kw)  # list arguments that the recipe omits are really omitted (defaults)
             elif k == "basis":
                 from quara.objects.matrix_basis import MatrixBasis, SparseMatrixBasis
 
@@ -271,6 +281,8 @@ class Run:
                 snap[i] = digest([np.array(obj.ps), list(obj.shape)])
             elif k == "basis":
                 snap[i] = digest([np.asarray(b.toarray() if sparse.issparse(b) else b) for b in obj.basis])
+            elif k == "setq":
+                snap[i] = digest(_setq_view(obj))
         return snap
 
     def add_to_pool(self, recipe, live_obj):
@@ -370,6 +382,16 @@ class Run:
         if op == "warm_bb":
             c = get(st["csys"])
             return c.basis_basisconjugate(tuple(st["index"]))
+        if op == "setq_q":
+            q = get(st["on"])
+            name = st["name"]
+            if name == "view":
+                return _setq_view(q)
+            if name in ("num_states", "num_povms", "num_gates", "num_mprocesses", "size_var_total"):
+                return getattr(q, name)()
+            if name == "var_total":
+                return q.var_total()
+            raise ValueError(name)
         if op == "basis_q":
             b = get(st["on"])
             name = st["name"]
@@ -390,6 +412,8 @@ class Run:
                 return d[tuple(a) if isinstance(a, list) else a]
             if st["name"] == "ps":
                 return d.ps
+            if st["name"] == "execute_random_sampling":
+                return d.execute_random_sampling(st["args"][0], st["args"][1], st["args"][2])
             return getattr(d, st["name"])(*st["args"])
         if op == "tomo_m":
             qt = get(st["tomo"])
@@ -673,18 +697,35 @@ class Run:
             if i is None:
                 return
             st["on"] = i  # the record keeps the resolved id
-        if not isinstance(i, int) or not (0 <= i < len(self.pool)) or self.pool[i]["kind"] not in QOP_KINDS:
+        if not isinstance(i, int) or not (0 <= i < len(self.pool)) or self.pool[i]["kind"] not in QOP_KINDS + ("setq",):
             return
         obj = self.build_entry(i, None, True)
         before = self.snapshot_all()
-        getattr(obj, st["name"])()
+        if st["name"] == "append":
+            getattr(obj, st["list"]).append(self.build_entry(st["item"], None, True))
+        else:
+            getattr(obj, st["name"])()
         after = self.snapshot_all()
         self.bump("oracle_checks", "O1")
+        holders = {j for j, r in enumerate(self.pool) if (r["kind"] == "setq" and any(i in (r.get(k) or []) for k in ("states", "povms", "gates", "mprocesses"))) or (r["kind"] == "tomo" and i in r["testers"])}
         for j, d in before.items():
-            if j != i and after.get(j) != d:
+            if j != i and j not in holders and after.get(j) != d:
                 raise Violation("O1_operand_immutability", f"step {idx} ({st['name']} on object {i}) changed pool object {j} ({self.pool[j]['kind']})", {"step": idx, "st": to_jsonable(st), "object": j}, dict(sig, changed=self.pool[j]["kind"]))
         fresh = {}
         ref = self.build_entry(i, fresh, False)
+        if st["name"] == "append":
+            getattr(ref, st["list"]).append(self.build_entry(st["item"], fresh, False))
+            self.bump("oracle_checks", "O2")
+            a, b = _setq_view(obj), _setq_view(ref)
+            self.log.append(["mutate", "append", digest(a)])
+            if digest(a) != digest(b):
+                raise Violation("O2_history_independence", f"step {idx}: appending to {st['list']} of set {i} gives a set that differs from the same append on a fresh set", {"step": idx, "st": to_jsonable(st)}, sig)
+            rec = copy.deepcopy(self.pool[i])
+            rec[st["list"]] = list(rec.get(st["list"]) or []) + [st["item"]]
+            self.pool[i] = rec
+            self.bump("faults", "in_place_mutator")
+            self.fault_pending = True
+            return
         getattr(ref, st["name"])()
         self.bump("oracle_checks", "O2")
         a, b = W.snapshot_qop(obj), W.snapshot_qop(ref)
@@ -716,7 +757,7 @@ class Run:
                 if st["table"] in self.deleted_since.get(cid, set()):
                     self.deleted_since[cid].discard(st["table"])
                     self.bump("probes", "table_deleted_then_rebuilt")
-        elif op in ("m", "modfunc", "compose", "estimate", "with_var", "tomo_m", "mdist", "basis_q", "esys_q", "csys_q"):
+        elif op in ("m", "modfunc", "compose", "estimate", "with_var", "tomo_m", "mdist", "basis_q", "esys_q", "csys_q", "setq_q"):
             name = st.get("name") or ""
             if any(self.deleted_since.values()) and ("sparsity" in name or "dict" in name or "proj" in name or op == "estimate"):
                 self.bump("probes", "operation_after_cache_deletion")
@@ -761,6 +802,11 @@ class Run:
         """after a listed finding: replace every live object by its fresh-world twin and carry on."""
         self.live = {}
         Settings.set_atol(self.atol)
+
+
+def _setq_view(q):
+    return {"states": [W.snapshot_qop(x) for x in q.states], "povms": [W.snapshot_qop(x) for x in q.povms], "gates": [W.snapshot_qop(x) for x in q.gates],
+            "mprocesses": [W.snapshot_qop(x) for x in q.mprocesses]}
 
 
 def _scribble(x):
@@ -838,7 +884,7 @@ class Generator:
         self.w = {
             "m": 6, "with_var": rngc.choice([1, 3]), "modfunc": rngc.choice([1, 3]), "compose": 2, "tensor": rngc.choice([0.3, 1]), "cache": 0 if self.fault_free else rngc.choice([2, 5, 8]),
             "flip": 0 if self.fault_free else rngc.choice([0, 0.5, 1.5]), "estimate": rngc.choice([0.5, 2, 4]), "loss_eval": rngc.choice([0.5, 2]), "basis_write": 0.4, "copy_edit": 0.7, "rerun": 1.0, "dataset": 0.8,
-            "mdist": 0.8, "tomo_m": 1.5, "basis_q": 0.8, "csys_q": 0.6, "chain": 0.7, "derive": 1.2,
+            "mdist": 0.8, "tomo_m": 1.5, "basis_q": 0.8, "csys_q": 0.6, "chain": 0.7, "derive": 1.2, "setq": 0.8,
         }
         self.focus = "general" if self.fault_free else rngc.choice(["general", "general", "cache", "cache", "estimation", "estimation", "projection", "tolerance"])
         if opts.get("focus"):
@@ -910,6 +956,8 @@ class Generator:
         rng = self.rng
         # only derived objects and the random ones are zeroed; the catalogue testers stay usable for tomography
         used = {t for r in self.pool if r["kind"] == "tomo" for t in r["testers"]}
+        # ... and members of a set of operations stay as they are (zeroing a member legitimately changes the set)
+        used |= {m for r in self.pool if r["kind"] == "setq" for key in ("states", "povms", "gates", "mprocesses") for m in (r.get(key) or [])}
         cands = [j for j, r in enumerate(self.pool) if r["kind"] in QOP_KINDS and j not in used]
         if not cands:
             return None
@@ -1198,6 +1246,22 @@ class Generator:
         self.attach_options(st, t)
         return st
 
+    def g_setq(self):
+        rng = self.rng
+        sets = self.ids("setq")
+        if not sets:
+            return None
+        i = rng.choice(sets)
+        if not self.fault_free and rng.random() < 0.35:
+            lst = rng.choice(["states", "povms", "gates", "mprocesses"])
+            kind = {"states": "state", "povms": "povm", "gates": "gate", "mprocesses": "mprocess"}[lst]
+            items = self.ids(kind, 0)
+            if items:
+                other = rng.choice(sets)
+                return [{"op": "mutate", "on": i, "name": "append", "list": lst, "item": rng.choice(items)},
+                        {"op": "setq_q", "on": other, "name": rng.choice(["view", "num_" + lst, "size_var_total"])}]
+        return {"op": "setq_q", "on": i, "name": rng.choice(["view", "num_states", "num_povms", "num_gates", "num_mprocesses", "size_var_total", "var_total"])}
+
     def g_basis_q(self):
         rng = self.rng
         cands = self.ids("basis") + self.ids("esys")
@@ -1237,8 +1301,10 @@ class Generator:
             k = rng.randint(1, len(shape))
             idx = sorted(rng.sample(range(len(shape)), k))
             return {"op": "mdist", "on": i, "name": "conditionalize", "args": [idx, [rng.randrange(shape[j]) for j in idx]]}
-        if r < 0.85:
+        if r < 0.8:
             return {"op": "mdist", "on": i, "name": "getitem", "args": [[rng.randrange(d) for d in shape]]}
+        if r < 0.92:
+            return {"op": "mdist", "on": i, "name": "execute_random_sampling", "args": [rng.choice([1, 10, 100]), rng.randint(1, 3), rng.randrange(50)]}
         return {"op": "mdist", "on": i, "name": "ps", "args": []}
 
     def g_tomo_m(self):
@@ -1281,7 +1347,7 @@ class Generator:
         return {"op": "copy_edit", "on": rng.choice([j for j, r in enumerate(self.pool) if r["kind"] in QOP_KINDS])}
 
     def g_rerun(self):
-        cands = [s for s in self.history if s["op"] in ("m", "with_var", "modfunc", "compose", "estimate", "loss_eval", "tomo_m", "mdist", "basis_q", "esys_q", "csys_q", "derive")]
+        cands = [s for s in self.history if s["op"] in ("m", "with_var", "modfunc", "compose", "estimate", "loss_eval", "tomo_m", "mdist", "basis_q", "esys_q", "csys_q", "derive", "setq_q")]
         if not cands:
             return None
         return copy.deepcopy(self.rng.choice(cands))
